@@ -17,7 +17,7 @@ m = {
         "add_only": True,
     },
     "engines": [
-        {"name": "rapid-harness", "path": "harness/", "serves_properties": sorted(set(CHECKS) & set(open(os.path.join(ROOT, "claimed.txt")).read().split())), "kind_free_text": "pgregory.net/rapid v1.3.0 stateful/model-based property tests (plus testing/synctest for harness-owned schedules, native go fuzzing in the thorough tier) compiled against /repo's working tree; driver ./check"},
+        {"name": "rapid-harness", "path": "harness/", "serves_properties": sorted(set(CHECKS) & set(open(os.path.join(ROOT, "claimed.txt")).read().split())), "kind_free_text": "pgregory.net/rapid v1.3.0 stateful/model-based property tests (plus testing/synctest for harness-owned schedules and fault enumeration; no native go fuzzing, see DESIGN 12.1) compiled against /repo's working tree; driver ./check"},
     ],
     "checks": [],
     "not_applicable": [],
